@@ -17,7 +17,7 @@ type ghostState struct {
 	poolSeq     int
 	mutexes     map[*Value]*mutexState
 	onces       map[*Value]bool
-	crcAlwaysUF bool
+	crcNative   bool
 
 	// ownership monitor
 	ownMon   bool
